@@ -787,3 +787,58 @@ CASES += [
  dict(id='table-width-by-format-argument', kind='fire', file=M, old='        print!(" {} |", pad_right(label, widths[i]));', new='        print!(" {:w$} |", label, w = widths[i]);', expect={'C12': 'format width'}, control=False),
  dict(id='table-width-capped-format-argument', kind='silent', file=M, old='        print!(" {} |", pad_right(label, widths[i]));', new='        print!(" {:w$} |", label, w = widths[i].min(200));', checks=['C12'], control=False),
 ]
+
+# eighth round of behaviour-preserving patches (bn28 the table / listing printers of the CLI, bn29 the generators, bn30 the parser written in
+# other styles: let-else on peek(), token -> Option<operator> helpers, local closures, `kw @ (A | B)`, tuple-returning helpers, next_if_eq,
+# Result::map): 22 of 24 silent after the generalisations of DESIGN.md 15.6, two are known alarms
+_BN8 = {28: ['C07', 'C09', 'C10', 'C11', 'C12'], 29: ['C15', 'C16', 'C17', 'C18'], 30: ['C03', 'C04', 'C05', 'C06', 'C08', 'C11']}
+_BN8_FILE = {28: M, 29: G, 30: P}
+_BN8_KNOWN = {'bn28-03': 'print_true_vars_recursive as `if let Choice` + early returns instead of one match: X1/X2 read the arms of a match on the node',
+              'bn28-04': 'print_sized_line chains the label cells with the outcome cell into one iterator and indexes widths by its enumerate(): the index domain of a chained iterator is not derived (X3 fails closed, the table printers\' index sites stay undischarged)'}
+for _k, _checks in _BN8.items():
+    for _n in range(1, 9):
+        _id = 'bn%d-%02d' % (_k, _n)
+        if _id in _BN8_KNOWN: CASES.append(dict(id=_id, kind='known-alarm', file=_BN8_FILE[_k], patch=_id + '.diff', checks=_checks, control=False, why=_BN8_KNOWN[_id]))
+        else: CASES.append(dict(id=_id, kind='silent', file=_BN8_FILE[_k], patch=_id + '.diff', checks=_checks, control=False))
+
+CASES += [
+ # every generalisation of round 8 with a twin that must fire
+ dict(id='pad-loop-inclusive-bound', kind='fire', file=M, patch='bn28-01.diff', old='while shown < width {', new='while shown <= width {', expect={'C12': 'Overflow'}, control=False),
+ dict(id='graph-duplicate-flag-or', kind='fire', file=G, patch='bn29-01.diff', old='undirected && edges.contains(', new='undirected || edges.contains(', expect={'C18': 'violation'}, control=False),
+ dict(id='graph-candidates-helper-truncates', kind='fire', file=G, patch='bn29-02.diff', old='''    if let Some(edges) = edges.get(0..num_edges) {
+        Ok(edges.to_vec())
+    } else {
+        Err(anyhow::anyhow!(
+            "Cannot satisfy the desired amount of edges"
+        ))
+    }
+}
+
+/// Lists''', new='''    edges.truncate(num_edges);
+    Ok(edges)
+}
+
+/// Lists''', expect={'C18': 'refuse'}, control=False),
+ dict(id='graph-colour-binding-other-count', kind='fire', file=G, patch='bn29-03.diff', old='augment_colors(&selection, num_colors)?,', new='augment_colors(&selection, num_colors + 1)?,', expect={'C18': '--colors'}, control=False),
+ dict(id='graph-colour-binding-uncoloured-written', kind='fire', file=G, patch='bn29-03.diff', subs=[(r'let selection = match args\.colors \{', 'let _coloured = match args.colors {'), (r'None => selection,', 'None => selection.clone(),')], expect={'C18': 'violation'}, control=False),
+ dict(id='colour-endpoint-loop-same-end', kind='fire', file=G, patch='bn29-04.diff', old='[&edge.0, &edge.1]', new='[&edge.0, &edge.0]', expect={'C18': 'product vertices'}, control=False),
+ dict(id='clique-second-pass-one-endpoint', kind='fire', file=C, patch='bn29-05.diff', old='        vertices.insert(to.clone());\n', new='', expect={'C16': 'vertex set'}, control=False),
+ dict(id='clique-excluded-flag-misses-complement', kind='fire', file=C, patch='bn29-06.diff', old='''                        && (edges.contains(&(v2.to_string(), v1.to_string()))
+                            || edges_complement.contains(&(v2.to_string(), v1.to_string()))));''', new='''                        && edges_complement.contains(&(v2.to_string(), v1.to_string())));''', expect={'C16': 'violation'}, control=False),
+ dict(id='sudoku-split-ascii-whitespace', kind='fire', file=U, patch='bn29-07.diff', old='puzzle_input.split_whitespace().collect()', new='puzzle_input.split_ascii_whitespace().collect()', expect={'C17': 'whitespace'}, control=False),
+ dict(id='queens-output-map-open-untruncated', kind='fire', file=Q, patch='bn29-08.diff', old='output.map(File::create).transpose()?', new='output.map(|p| std::fs::OpenOptions::new().write(true).create(true).open(p)).transpose()?', expect={'C15': 'truncat'}, control=False),
+ dict(id='parser-letelse-true-builds-false', kind='fire', file=P, patch='bn30-01.diff', old='''                expect(SymbolicBDDToken::True, tokens)?;
+                Ok(Self::True)''', new='''                expect(SymbolicBDDToken::True, tokens)?;
+                Ok(Self::False)''', expect={'C08': 'A3'}, control=False),
+ dict(id='parser-operator-helper-wrong-row', kind='fire', file=P, patch='bn30-02.diff', old='SymbolicBDDToken::Nor => Some(BinaryOperator::Nor),', new='SymbolicBDDToken::Nor => Some(BinaryOperator::Nand),', expect={'C03': 'Nor'}, control=False),
+ dict(id='parser-operator-helper-missing-row', kind='fire', file=P, patch='bn30-02.diff', old='            SymbolicBDDToken::Iff => Some(BinaryOperator::Iff),\n', new='', expect={'C03': 'Iff'}, control=False),
+ dict(id='parser-ite-closure-parts-swapped', kind='fire', file=P, patch='bn30-03.diff', old='''        let then = parse_part(SymbolicBDDToken::Then)?;
+        let else_ = parse_part(SymbolicBDDToken::Else)?;''', new='''        let else_ = parse_part(SymbolicBDDToken::Else)?;
+        let then = parse_part(SymbolicBDDToken::Then)?;''', expect={'C08': 'violation'}, control=False),
+ dict(id='parser-fixpoint-keyword-inverted', kind='fire', file=P, patch='bn30-04.diff', old='let initial = matches!(keyword, SymbolicBDDToken::GFP);', new='let initial = matches!(keyword, SymbolicBDDToken::LFP);', expect={'C06': 'violation'}, control=False),
+ dict(id='parser-quantified-part-wrong-kind', kind='fire', file=P, patch='bn30-05.diff', old='Ok(Self::Quantifier(QuantifierType::Exists, vars, formula))', new='Ok(Self::Quantifier(QuantifierType::Forall, vars, formula))', expect={'C04': 'Quantifier'}, control=False),
+ dict(id='parser-list-next-if-eq-inverted', kind='fire', file=P, patch='bn30-06.diff', old='if tokens.next_if_eq(&&SymbolicBDDToken::Comma).is_none() {', new='if tokens.next_if_eq(&&SymbolicBDDToken::Comma).is_some() {', expect={'C08': 'violation'}, control=False),
+ dict(id='parser-counting-closure-wrong-row', kind='fire', file=P, patch='bn30-07.diff', old='SymbolicBDDToken::Geq => Some(CountableOperator::AtLeast),', new='SymbolicBDDToken::Geq => Some(CountableOperator::AtMost),', expect={'C05': 'Geq'}, control=False),
+ dict(id='parser-negation-map-drops-not', kind='fire', file=P, patch='bn30-08.diff', old='.map(|negated| Self::Not(Box::new(negated)))', new='.map(|negated| negated)', expect={'C08': 'Not'}, control=False),
+ dict(id='parser-result-inspected-not-mapped', kind='fire', file=P, patch='bn30-08.diff', old='expect(SymbolicBDDToken::Eof, tokens).map(|()| result)', new='expect(SymbolicBDDToken::Eof, tokens).map(|()| result.clone()).or(Ok(result))', expect={'C08': 'A1'}, control=False),
+]
